@@ -149,6 +149,13 @@ func snapshot(rt *m.RoutingTable) (after []route, lookups []map[string]any) {
 
 // exec applies one operation to the real table and returns the trace event.
 func exec(c *vf.Ctx, rt *m.RoutingTable, a act) map[string]any {
+	return execWith(c, rt, a, entryOf, snapshot)
+}
+
+// execWith: exec with the builder of entries and the projection of the table given by the caller.
+func execWith(c *vf.Ctx, rt *m.RoutingTable, a act, entryOf func(route) m.RoutingTableEntry,
+	snapshot func(*m.RoutingTable) ([]route, []map[string]any),
+) map[string]any {
 	ev := map[string]any{"ev": a.Name}
 	switch a.Name {
 	case "add":
@@ -275,8 +282,9 @@ func (b *batch) validate(c *vf.Ctx, label string) {
 func main() { vf.Main("C11", "model_checking", run) }
 
 func run(c *vf.Ctx) {
-	c.Rule("M: TLC exhaustive over all sequences of <= 4 (thorough 5) operations (AddRoute peer/gossip with system-producible paths, RemoveNextHop, RemoveDisconnected with/without peer list, Clean, ageing) on a universe of 4 addresses in 2 routing prefixes, limit 1 (and 2), checking P1..P7. R: all transitions of the <=3-operation graph (quick: seeded sample) and TLC -simulate walks executed on a real m.RoutingTable; T: Go-PRNG histories; after every operation the real table and all real lookups are projected and TLC evaluates P1..P7 + LookupOK on them. distinct = distinct operation-sequence signatures executed on the real table")
-	c.Assume("only system-producible routes (peer: empty or 2-element path; gossip: >= 1 relay, next hop = first relay)", "the projection VerifEntries returns the table as it is (guarded hook, copy under the table lock)")
+	c.Rule("M: TLC exhaustive over all sequences of <= 4 (thorough 5) operations (AddRoute peer/gossip with system-producible paths, RemoveNextHop, RemoveDisconnected with/without peer list, Clean, ageing) on a universe of 4 addresses in 2 routing prefixes, limit 1 (and 2), checking P1..P7. R: all transitions of the <=3-operation graph (quick: seeded sample) and TLC -simulate walks executed on a real m.RoutingTable; T: Go-PRNG histories; after every operation the real table and all real lookups are projected and TLC evaluates P1..P7 + LookupOK on them. T-par: concurrent episodes on long-lived tables with a big background (writers re-announcing their routes, a goroutine taking direct peers down and up, a reader, all while another goroutine runs Clean); the quiescent table after each episode is judged by TLC against what every sequential order of the calls yields (ParAdded, ParRemoved, ParPeers, ParExpired, ParDuring). distinct = distinct operation-sequence signatures executed on the real table")
+	c.Assume("only system-producible routes (peer: empty or 2-element path; gossip: >= 1 relay, next hop = first relay)", "the projection VerifEntries returns the table as it is (guarded hook, copy under the table lock)",
+		"T-par: every route key is written by one goroutine per episode, so its last write is well defined; the interleaving is the scheduler's (no hook inside Clean), made likely by tables of 20-40 k entries")
 
 	// ---- M ----
 	mcs := []string{"RoutingTable_MC.cfg"}
@@ -428,6 +436,9 @@ func run(c *vf.Ctx) {
 
 	// ---- T: nested routable prefixes, as the router configures them ----
 	nestedStage(c)
+
+	// ---- T: concurrent episodes on a big table (writers, removals and lookups while Clean runs) ----
+	parStage(c)
 }
 
 func randRoute(rng *rand.Rand, relays []int) route {
